@@ -21,6 +21,15 @@ def main():
     # the self-checking search itself (compile_target, compile, _case3_best_reordering, _bfs_case3, the nested-commutator check):
     # Refine/SearchRefine.v proves, on the translation of the current source, that whatever compile_target returns evaluates to the target
     ck.check_translation("search")
+    # ... and the translator itself is validated by execution: the generated Gallina, evaluated on the helper answers recorded from real runs,
+    # must return what the real runs returned
+    tv = comp.validate_translation_by_execution(ck, 45 if ck.quick else 300)
+    if tv is not None:
+        ck.cov.setdefault("translated_model", {}).setdefault("search", {})["validated_by_execution"] = {k: v for k, v in tv.items() if k != "disagree"}
+        if tv.get("error"):
+            ck.obligation_broken("the generated search translation could not be evaluated on recorded runs", tv["error"])
+        for c in tv.get("disagree", [])[:5]:
+            ck.correspondence_broken("compile_target(%s, k=%d): the Gallina translation of the search, run on the helper answers recorded from the real run, does not return what the real run returned" % (c["target"], c["k"]), {"case": c})
     cases = comp.compile_cases(ck, ck.quick)
     res = ck.impl("c05", cases, per_case_s=120 if ck.quick else 300, procs=15)
     got = [(c, r) for c, r in zip(cases, res) if r.get("out") == "seq"]
